@@ -349,6 +349,8 @@ Step(o, ev, C) ==
       v13 == (IF treeChanged /\ ~firstDelivery /\ ~spawned /\ o.rinc = ev.rinc THEN {"C13:RequestsOutsideDelivery"} ELSE {})
              \cup {"C13:ResponsesDiffer" : p \in {q \in finOut : q.cond = "NoError" /\ o.delivered /\ q.resp # o.succResp}}
              \cup {"C13:ResponsesDiffer" : x \in {y \in finIndS : Delivered(ev, "S", "Finished") /\ y.resp # ev.pin.resp}}
+             \* the successful delivery runs every request of the Put: one response per request
+             \cup (IF firstDelivery /\ Len(succResp2) # Len(C.fsreqs) THEN {"C13:RequestsNotRun"} ELSE {})
 
       \* one original plus one retransmission per earlier expiration; after a resume that reset the
       \* count there is no new original, only the retransmissions
@@ -420,9 +422,12 @@ Step(o, ev, C) ==
       \* its consequences: that "delivery" ended the transaction; the PDUs still to come respawn a receive transaction which
       \* delivers (again) and runs the filestore requests - judged against the bogus first delivery
       Consequences == {"C13:RequestsOutsideDelivery", "C13:ResponsesDiffer", "C04:FileChanged", "C04:RequestsRedone"}
+      \* (a "delivery" reported without the metadata cannot have run the requests the metadata carries)
+      sigNotRun == isUnack /\ ~rxMeta2
       sigOf(tag) == IF tag \in {"C18:IncompleteNotComplete", "C01:DeliveredIsSource"} /\ incompleteUnack /\ finIndS = {}
                     THEN "unack-incomplete-reported-complete"
                     ELSE IF tag \in Consequences /\ isUnack /\ o.kf /\ o.rinc > 1 THEN "unack-incomplete-reported-complete"
+                    ELSE IF tag = "C13:RequestsNotRun" /\ sigNotRun THEN "unack-incomplete-reported-complete"
                     ELSE ""
 
       o2 == [ susp |-> susp2, excused |-> excused2, cancel |-> cancel2,
